@@ -596,6 +596,13 @@ def _part_source(w, part):
         fmts = [c for c in calls_in(p) if c[1].startswith('core::fmt::rt::Argument::new_')]
         if len(fmts) == 1:
             kind = fmts[0][1].rsplit('::new_', 1)[-1]
+            from .fmt_template import template_of, lossy
+            tpl = template_of(p)
+            phs = [x[1] for x in (tpl or []) if x[0] == 'ph']
+            if tpl is None or len(phs) != 1 or phs[0]['arg'] not in (None, 0):
+                return 'an unreadable format template', w.norm(fmts[0][2][0])
+            if lossy(phs[0]):
+                return 'a lossy format spec (%s)' % lossy(phs[0]), w.norm(fmts[0][2][0])
             return ('debug' if kind == 'debug' else kind), w.norm(fmts[0][2][0])
         return '?', p
     return '?', p
